@@ -191,9 +191,9 @@ def run(c, facts, tier):
                     c.ob("C12.propagate", fn.key, "%s(..) [%s]" % (name, src(cl)[:50]), None, "result produced inside a closure whose consumer was not recognised")
             elif how and how.startswith("swallowed"):
                 # accepted only for snippet(..) when the same elements already passed placeholder(..)? and the sibling tables agree
-                prem1 = name == "snippet" and bool(find_all(fn.body, lambda n: n.get("k") == "try" and find_all(n, lambda m: m.get("k") == "call" and m["f"]["k"] == "path" and m["f"]["segs"][-1] == "placeholder")))
+                prem1 = name == facts.fn("scheme::target_scheme::snippet").name and bool(find_all(fn.body, lambda n: n.get("k") == "try" and find_all(n, lambda m: m.get("k") == "call" and m["f"]["k"] == "path" and m["f"]["segs"][-1] == facts.fn("scheme::target_scheme::placeholder").name)))
                 # order: the placeholder pass precedes the snippet pass
-                lp = min([n["l"] for n in find_all(fn.body, lambda m: m.get("k") == "call" and m["f"]["k"] == "path" and m["f"]["segs"][-1] == "placeholder")] or [10**9])
+                lp = min([n["l"] for n in find_all(fn.body, lambda m: m.get("k") == "call" and m["f"]["k"] == "path" and m["f"]["segs"][-1] == facts.fn("scheme::target_scheme::placeholder").name)] or [10**9])
                 prem2 = all(
                     {("err" if r["outcome"].startswith("err") else "ok") for _, r in pv.get(v, [])} == {("err" if r["outcome"].startswith("err") else "ok") for _, r in sv.get(v, [])} for v in facts.variants("FormatField")
                 )
